@@ -1,8 +1,11 @@
-(** C10 (stage A): obligations on the translated data shared with C02; the
-    unbounded theorems are in Proofs/ParserFacts.v as they are completed. *)
+(** C10 - context-dependent literal widths follow the types declared earlier.
+    Statements only; proofs are [exact] of lemmas of Proofs/TrackerFacts.v and
+    Inst/Linked.v.  The width theorems hold for every tracker state, decoder
+    state and instruction history (unbounded). *)
 From RV Require Import Model.Base Model.Spirv Model.Grammar Model.Inst Model.Parser Model.Link.
 From RV Require Import Gen.SpirvData Gen.TableData Gen.ParseData Inst.Linked.
 From RV Require Gen.RefParams Gen.RefTable Gen.RefSpirv.
+From RV Require Import Model.Decoder Proofs.TrackerFacts.
 
 Theorem C10_tables_link :
   resolve_all op_enum core_raw = Some core_table /\
@@ -21,5 +24,89 @@ Theorem C10_grammar_is_reference :
    ss_list_eqb operand_variants RefParams.operand_variants = true).
 Proof. exact (conj layout_matches_ref (conj values_match_ref params_match_ref)). Qed.
 
+(** the tracker computed by the parser over the instructions seen so far IS the
+    specified environment (latest declaration / propagation from result type wins) *)
+Theorem C10_tracker_is_spec :
+  forall seen t, track_all G [] seen = Some t ->
+    t = env_of G seen /\ forall id, resolve t id = type_of_id G seen id.
+Proof. exact linked_track_is_spec. Qed.
+
+(** the width rule: 1 word for int 8/16/32, float 16/32 and unknown types; 2
+    words (low first) for 64 bits; otherwise an unsupported-type error with
+    nothing consumed *)
+Theorem C10_width_rule :
+  forall seen id idx d,
+  parse_literal (env_of G seen) id idx d =
+  match width (type_of_id G seen id) with
+  | None => Er (PTypeUnsupported (off d) idx)
+  | Some 1%nat => lit32 d
+  | Some _ => lit64 d
+  end.
+Proof. exact (literal_width_is_spec G). Qed.
+
+Theorem C10_one_word :
+  forall t id idx d, width (resolve t id) = Some 1%nat ->
+  parse_literal t id idx d = lit32 d /\
+  forall o d1, parse_literal t id idx d = Ok (o, d1) ->
+    exists w, o = OLit32 w /\ word d = (inl w, d1) /\ off d1 = off d + 4.
+Proof. exact width_rule_1. Qed.
+
+Theorem C10_two_words_low_first :
+  forall t id idx d, width (resolve t id) = Some 2%nat ->
+  parse_literal t id idx d = lit64 d /\
+  forall o d1, parse_literal t id idx d = Ok (o, d1) ->
+    exists v, o = OLit64 v /\ off d1 = off d + 8 /\
+      exists lo hi dm, word d = (inl lo, dm) /\ word dm = (inl hi, d1) /\ v = lo + hi * 2 ^ 32.
+Proof. exact width_rule_2. Qed.
+
+Theorem C10_unsupported :
+  forall t id idx d, width (resolve t id) = None ->
+  parse_literal t id idx d = Er (PTypeUnsupported (off d) idx).
+Proof. exact width_rule_unsupported. Qed.
+
+(** the assembler emits as many words as the parser consumed *)
+Theorem C10_assembler_agrees :
+  forall t id idx d o d1, parse_literal t id idx d = Ok (o, d1) ->
+  N.of_nat (length (asm_operand o)) = (off d1 - off d) / 4.
+Proof. exact assembler_agrees. Qed.
+
+Theorem C10_asm_lit64_low_first :
+  forall lo hi, lo < 2 ^ 32 -> hi < 2 ^ 32 -> asm_operand (OLit64 (lo + hi * 2 ^ 32)) = [lo; hi].
+Proof. exact asm_lit64_roundtrip. Qed.
+
+(** OpSwitch: the case literal is read with the selector's type *)
+Theorem C10_switch_uses_selector :
+  forall t idx d rt rid sel acc,
+  step_kind G t OP_SWITCH (gd_k_pairlitid G) idx d rt rid (OIdRef sel :: acc) =
+    (do (o, d1) <- parse_literal t sel idx d;
+     do (w, d2) <- dreq (word d1);
+     Ok (rt, rid, (OIdRef sel :: acc) ++ [o; OIdRef w], d2)).
+Proof. exact linked_switch_literal. Qed.
+
+(** only the instructions already seen in the current parse matter: a parse
+    starts from the empty tracker, and the k+1-th instruction is parsed under
+    the environment of the first k delivered instructions *)
+Theorem C10_depends_only_on_current_parse :
+  forall S (C : consumer S) bytes s0 s' l r,
+  parse G (logC C) bytes (s0, []) = ((s', l), r) ->
+  forall k i, nth_error l k = Some i ->
+    exists dk dk', parse_inst G (env_of G (firstn k l)) (N.of_nat k + 1) dk = Ok (i, dk').
+Proof. exact (@linked_depends_only_on_current_parse). Qed.
+
+(** the `track` index panic is unreachable for instructions the parser returns *)
+Theorem C10_track_total :
+  forall t idx d i d1 t', parse_inst G t idx d = Ok (i, d1) -> exists t1, track G t' i = Some t1.
+Proof. exact linked_parsed_inst_tracks. Qed.
+
 Print Assumptions C10_tables_link.
 Print Assumptions C10_grammar_is_reference.
+Print Assumptions C10_tracker_is_spec.
+Print Assumptions C10_width_rule.
+Print Assumptions C10_one_word.
+Print Assumptions C10_two_words_low_first.
+Print Assumptions C10_unsupported.
+Print Assumptions C10_assembler_agrees.
+Print Assumptions C10_asm_lit64_low_first.
+Print Assumptions C10_switch_uses_selector.
+Print Assumptions C10_depends_only_on_current_parse.
+Print Assumptions C10_track_total.
